@@ -57,7 +57,10 @@ class Ctx:
                 f, info = factsmod.extract(config)
             except factsmod.Inconclusive as e:
                 raise Inconclusive(str(e))
-            from . import inline, fieldnames, fnnames
+            from . import inline, fieldnames, fnnames, adtnames
+            aren = adtnames.canonicalise(f)
+            if aren:
+                info = dict(info, adt_renames=aren)
             ren = fieldnames.canonicalise(f)
             if ren:
                 info = dict(info, field_renames=ren)
